@@ -65,7 +65,8 @@ CLAIMED['C08'] = {
     'text': 'raises-clauses function by function: the two evaluator dispatchers let only ExpressionError escape whatever the dispatched method '
             'raises (every Exception subclass explored), the public entry points raise at most ExpressionError, and every caller on the classification '
             'and view path (match, _evaluate_*, _resolve_tags, apply_transforms, _resolve_dynamic_tags, normalize_merchant, evaluate_variables, '
-            'evaluate_section_filter, classify_merchants) raises nothing, each discharged from callee contracts plus its own handlers.',
+            'evaluate_section_filter, classify_merchants) raises nothing, each discharged from callee contracts plus its own handlers. In every item loop of those callers no exception '
+            'leaves the loop body: a failing transform / binding / field / tag / variable / view is skipped and the items after it are still processed.',
     'level_note': _BASE_NOTE + ' Values of unknown dynamic type are over-approximated (any operation may raise the operator/lookup errors); '
                   'BaseException-only classes and resource exhaustion are outside the claim.',
     'technique': 'contract-based deductive verification of raises-clauses (symbolic execution with exception outcomes of callees from their contracts) + bounded oracle of failing expressions in every position',
@@ -174,7 +175,7 @@ CLAIMED['C14'] = {
     'category': 'proof',
     'text': 'For every modifier kind and for shapes of several modifiers, the real _modifier_to_expr is run on sentinel values, its output is parsed by CPython and given the documented '
             'meaning with sentinels replaced by symbols, the real check_all_conditions / evaluate_*_condition are executed symbolically, and the two meanings are proved equal for all amounts '
-            'and dates; the escaping structure of the regex() literal is proved. Decoding of the literal, the line-level round trip through the .rules parser and whole-file classification are '
+            'and dates; the escaping structure of the regex() literal is proved; csv_to_merchants_content is proved to write the header and then exactly one rule block per CSV row, in file order, nothing skipped or merged (loop invariant over a ghost fold of blocks). Decoding of the literal, the line-level round trip through the .rules parser and whole-file classification are '
             'exercised by the labelled bounded oracle. Three recorded known findings (relative dates dropped, patterns starting with "(", surrounding blanks in names).',
     'level_note': _BASE_NOTE + ' Regular expressions opaque (A6); float repr round trip and date ordinals assumed; the meaning function of the emitted fragment is the documented one (C04).',
     'technique': 'contract-based deductive verification (sentinel execution of the converter + symbolic execution of the CSV evaluators, equivalence by z3) + bounded differential oracle on CSV vs migrated files',
@@ -197,8 +198,11 @@ CLAIMED['C04'] = {
             'leastness lemmas by induction), a comparison chain is the left-to-right conjunction of links over the operands\' own values (invariant left == value of operand k), the link meaning of the '
             'reference (case folding of string ==, != and in, ISO date parsing), / and % by zero give 0, not is Boolean negation, a ternary evaluates only the chosen branch; contains, startswith, anyof, trim, '
             'uppercase, lowercase, strip_prefix, strip_suffix, substring and split proved against string-theory specifications with their arity errors; double negation, De Morgan and operand swap as lemmas '
-            'over the Boolean semantics with failures. Regex / fuzzy / extract functions, comprehension scoping, generators and name resolution are decided only by the labelled bounded oracle '
-            '(CPython eval() differential over an exhaustive small grammar, reference tables, metamorphic laws). Two defects found and fixed (coerced operand carried along a chain; strip_suffix with an empty suffix).',
+            'over the Boolean semantics with failures; _eval_Name resolves in the stated order (scope, variables, primitives, data sources; name lower-cased), := binds the lower-cased name and nothing else, '
+            '_eval_comprehension_loop leaves the scope as it found it for passing and failing items alike (loop invariant, recursive call by contract) and binds the loop variable while conditions and inner '
+            'loops run, month/year/day/weekday are those of the date. Regex / fuzzy / extract functions, which rows a comprehension selects, generators (yield) and any/all/sum/len/next are decided only by the '
+            'labelled bounded oracle (CPython eval() differential over an exhaustive small grammar, reference tables, metamorphic laws, scope suite). Three defects found and fixed (coerced operand carried '
+            'along a chain; strip_suffix with an empty suffix; generator loop variables outliving any()/all()/next()).',
     'level_note': _BASE_NOTE + ' Python operators, isinstance, str.lower/upper/strip/split and date.fromisoformat on values of unknown dynamic type are uninterpreted functions of the operands; '
                   'TypeError from an operator is outside these contracts (converted by the dispatcher, C08); regular expressions and difflib are outside the verified text (A6).',
     'technique': 'contract-based deductive verification (per-method contracts by symbolic execution of the real evaluator methods, ghost first-stop folds, z3/cvc5) + bounded oracle (CPython differential, reference tables, laws)',
